@@ -185,6 +185,21 @@ fn adds(base: &[T]) -> Vec<Op> {
     out
 }
 
+/// insertions that precede every CHAIN sequence
+pub fn chain_prefix() -> Vec<Op> {
+    let (a, b2, c, d) = (h(0), var(0), f(0, 0), t3(0, 0, 0));
+    vec![
+        Op::Add(u(a)),
+        Op::Add(u(b2)),
+        Op::Add(u(c.clone())),
+        Op::Add(u(d.clone())),
+        Op::Add(b(c, cc())),
+        Op::Add(b(d.clone(), cc())),
+        Op::Add(b(cc(), d.clone())),
+        Op::Add(k3(d.clone(), d.clone(), d)),
+    ]
+}
+
 pub fn alphabet(name: &str) -> Vec<Op> {
     match name {
         "A0" | "A1" | "A2" | "T3" | "BIND" => {
@@ -365,6 +380,22 @@ pub fn alphabet(name: &str) -> Vec<Op> {
                 Op::Union(w(0, h(1)), f(0, 1)),
             ]
         }
+        "CHAIN" => {
+            // unions among four one-slot leaves A = h x, B = var x, C = f x x, D = t x x x whose parents u(.) were inserted by
+            // `chain_prefix()` (A, B have that one parent, C two, D four): uniting A=B, B=C, C=D in this order absorbs each
+            // united class into a class that is at least as big, and the parents' classes follow by congruence (the absorbed
+            // parent class keeps no e-node and no usage): a union-find chain of three links that nobody has compressed
+            let (a, b2, c, d) = (h(0), var(0), f(0, 0), t3(0, 0, 0));
+            vec![
+                Op::Union(a.clone(), b2.clone()),
+                Op::Union(b2.clone(), c.clone()),
+                Op::Union(c.clone(), d.clone()),
+                Op::Union(b2.clone(), a.clone()),
+                Op::Union(c.clone(), b2.clone()),
+                Op::Union(d.clone(), c.clone()),
+                Op::Union(a.clone(), d.clone()),
+            ]
+        }
         "CROSS" => vec![
             // two parents in different classes that repeat a slot of a (to be) symmetric child; they become congruent only
             // later, through a merge of their children (the alignment of their slots depends on canonical variants)
@@ -406,6 +437,8 @@ pub fn alphabet(name: &str) -> Vec<Op> {
             Op::Union(u(h(0)), var(0)),
             // under a binder
             Op::Union(lam(100, b(f(100, 0), var(1))), lam(100, b(g(100, 1), var(0)))),
+            // a second composite e-node in the class that becomes symmetric (wide over leaves vs. deep)
+            Op::Union(u(f(0, 1)), b(var(0), var(1))),
             Op::Add(b(var(0), var(1))),
         ],
         "MICRO" => vec![
